@@ -19,7 +19,6 @@ import (
 	"crypto/cipher"
 	"crypto/hkdf"
 	"crypto/sha256"
-	"crypto/tls"
 	"encoding/binary"
 	"fmt"
 	"net"
@@ -685,5 +684,5 @@ func execUDP(x *hysim.Run) {
 		}
 	}
 	x.Drain(0)
-	_ = tls.VersionTLS13
+	x.WaitTasks(time.Second)
 }
